@@ -16,6 +16,7 @@ import (
 	"time"
 
 	"kvassverif/internal/core"
+	"tkestack.io/kvass/pkg/prom"
 	"tkestack.io/kvass/pkg/shard"
 	"tkestack.io/kvass/pkg/target"
 )
@@ -29,7 +30,10 @@ type realRig struct {
 	tgt  *httptest.Server
 	head int64
 	tsdb int64
-	mu   sync.Mutex
+	// reloadFail > 0: the stub Prometheus answers POST /-/reload with 500 (it refuses the file or is restarting)
+	reloadFail int32
+	reloads    int64
+	mu         sync.Mutex
 	// script of the target: header delay, body parts with a delay before each
 	hdrDelay time.Duration
 	parts    [][]byte
@@ -58,6 +62,14 @@ func newRealRig(w *core.WorkerCtx, name string) (*realRig, string) {
 			atomic.AddInt64(&r.tsdb, 1)
 			fmt.Fprintf(rw, `{"status":"success","data":{"headStats":{"numSeries":%d}}}`, atomic.LoadInt64(&r.head))
 			return
+		}
+		if strings.HasSuffix(rq.URL.Path, "/-/reload") {
+			atomic.AddInt64(&r.reloads, 1)
+			if atomic.LoadInt32(&r.reloadFail) > 0 {
+				rw.WriteHeader(500)
+				io.WriteString(rw, `{"status":"error","error":"couldn't load configuration"}`)
+				return
+			}
 		}
 		io.WriteString(rw, `{"status":"success"}`)
 	}))
@@ -323,6 +335,83 @@ func runC14Real(w *core.WorkerCtx, k int) *core.CaseResult {
 			time.Sleep(time.Duration(r.Intn(40)) * time.Millisecond)
 		}
 		ok = poll(fmt.Sprintf("poll %d", i+2), head)
+	}
+	// second part: a configuration that changes the job's metric relabel rules is pushed while Prometheus refuses
+	// POST /-/reload; later Prometheus is fine again. The counts recorded for the following scrapes must be those
+	// under the rules of the configuration the sidecar REPORTS (its hash), whichever that is.
+	if ok && len(res.Viol) == 0 {
+		var pb strings.Builder
+		nKeep, nDrop := 20+r.Intn(20), 5+r.Intn(20)
+		for i := 0; i < nKeep; i++ {
+			fmt.Fprintf(&pb, "kept_metric{i=\"%d\"} 1\n", i)
+		}
+		for i := 0; i < nDrop; i++ {
+			fmt.Fprintf(&pb, "dropme_metric{i=\"%d\"} 1\n", i)
+		}
+		rg.mu.Lock()
+		rg.parts = [][]byte{[]byte(pb.String())}
+		rg.mu.Unlock()
+		cfgY := realRigConfig + "  metric_relabel_configs:\n  - source_labels: [__name__]\n    regex: dropme.*\n    action: drop\n"
+		hashOf := func(text string) string {
+			cm := prom.NewConfigManager()
+			if err := cm.ReloadFromRaw([]byte(text)); err != nil {
+				return ""
+			}
+			return cm.ConfigInfo().ConfigHash
+		}
+		hX, hY := hashOf(realRigConfig), hashOf(cfgY)
+		atomic.StoreInt32(&rg.reloadFail, 1)
+		perr := rg.post("/api/v1/status/config/", &shard.UpdateConfigRequest{RawContent: cfgY})
+		atomic.StoreInt32(&rg.reloadFail, 0)
+		trace = append(trace, fmt.Sprintf("configuration with a drop rule pushed while Prometheus refuses the reload: %v", perr))
+		if perr == nil {
+			res.Inconcl = "the injected reload failure did not surface"
+			return res
+		}
+		// what the coordinator does every cycle: push again if the shard does not report the hash, post the targets
+		rt, err := rg.runtime()
+		if err != nil {
+			res.Inconcl = "runtimeinfo: " + err.Error()
+			return res
+		}
+		if rt.ConfigHash != hY && r.Intn(2) == 0 {
+			if err := rg.post("/api/v1/status/config/", &shard.UpdateConfigRequest{RawContent: cfgY}); err != nil {
+				res.Inconcl = "second push: " + err.Error()
+				return res
+			}
+			rt, _ = rg.runtime()
+		}
+		if err := rg.assign(h); err != nil {
+			res.Inconcl = "assign after the failed reload: " + err.Error()
+			return res
+		}
+		for i := 0; i < 3; i++ {
+			if out := rg.scrape(h); out.Status != 200 {
+				res.Inconcl = fmt.Sprintf("scrape after the failed reload: status %d %s", out.Status, out.ReadErr)
+				return res
+			}
+		}
+		rt, err = rg.runtime()
+		st, err2 := rg.status()
+		if err != nil || err2 != nil || st[h] == nil {
+			res.Inconcl = fmt.Sprintf("status after the failed reload: %v %v", err, err2)
+			return res
+		}
+		want := int64(-1)
+		switch rt.ConfigHash {
+		case hY:
+			want = int64(nKeep)
+		case hX:
+			want = int64(nKeep + nDrop)
+		}
+		res.Execs++
+		res.AddStat("real_process_rule_changes_with_a_failing_prometheus_reload", 1)
+		trace = append(trace, fmt.Sprintf("three scrapes of %d+%d samples later: reported hash %s (without rule %s, with rule %s), series %d, total %d", nKeep, nDrop, rt.ConfigHash, hX, hY, st[h].Series, st[h].TotalSeries))
+		if want < 0 {
+			res.Violate("C14/real-process/unknown-configuration-reported", "after a push that failed in Prometheus' reload the sidecar reports hash %q, neither the previous (%s) nor the pushed (%s) configuration", rt.ConfigHash, hX, hY)
+		} else if st[h].Series != want || st[h].TotalSeries != int64(nKeep+nDrop) {
+			res.Violate("C14/real-process/counts-follow-other-rules", "the sidecar reports the configuration %s (the one %s the drop rule) after a push during which Prometheus refused the reload; three scrapes of a payload with %d samples, %d of which that configuration's rules keep, are recorded as series %d / total %d", rt.ConfigHash, map[bool]string{true: "with", false: "without"}[rt.ConfigHash == hY], nKeep+nDrop, want, st[h].Series, st[h].TotalSeries)
+		}
 	}
 	if len(res.Viol) > 0 {
 		res.Witness = map[string]interface{}{"trace": trace}
